@@ -8,10 +8,11 @@
     deadlock_free nonreentrant_nested_load_deadlocks reentrant_nested_load_completes
     unlocked_store_breaks_wf locked_store_is_setitem code_lock_is_reentrant
     deadlock_free_for_code each_load_correct wf_at_quiescence acquisitions_come_from_programs
-    acquisitions_in_program_order
+    acquisitions_in_program_order lru_invariant_under_every_schedule
 -/
 import Genshi.Lemmas.ConcLoad
 import Genshi.Lemmas.ConcSerial
+import Genshi.Lemmas.ConcLru
 import Genshi.Lemmas.Lru
 import Genshi.Model.ConcLru
 import Genshi.Gen.Loader
@@ -122,6 +123,17 @@ theorem wf_at_quiescence (c : CCfg) (ls0 : LState) (clock : Nat) (hi : Inv ⟨c.
       (seqLoads c.cfg c.fs ls0 [] (exec c (G.init ls0 progs) sched).acqLog).1 := by rw [← h]
   rw [this]
   exact seqLoads_inv c.cfg c.fs clock ls0 [] _ hi
+
+/-- Under every schedule, in every reachable state (not only at quiescence, and also for programs
+    with nested loads): the cache is one that a sequence of `__getitem__`/`__setitem__` calls builds
+    from `LRUCache(cap)`, so its concrete linked structure is well-formed (every cached key
+    reachable exactly once from head to tail, and backwards) and holds at most `cap` entries. -/
+theorem lru_invariant_under_every_schedule (c : CCfg) (cap : Nat) (ls0 : LState)
+    (h0 : CacheReach cap ls0.cache) (progs : List (List CReq)) (sched : List Tid) (d : Node Key Tmpl) :
+    ∃ (cops : List (Op Key Tmpl)) (cc : CLru Key Tmpl) (outs : List (Out Key Tmpl)),
+      crun (Genshi.Lru.empty cap d) cops = some (cc, outs) ∧ Wf cc ∧
+      Genshi.Lru.abs cc = some (exec c (G.init ls0 progs) sched).ls.cache ∧ len cc ≤ cap :=
+  reach_concrete (exec_reach (g := G.init ls0 progs) h0 sched) d
 
 /-- No deadlock: with the re-entrant lock, as long as some thread is not finished some thread
     can take a step (nested loads re-acquire the lock they already hold). -/
